@@ -208,6 +208,7 @@ async def _reader_case(mod, holder, case):
     proc.client = client
     delivered, notified = [], []
     entered = False
+    eof = False
     try:
         async with client:
             entered = True
@@ -225,6 +226,7 @@ async def _reader_case(mod, holder, case):
                         notified.append(client.notifications.receive_nowait())
                 except (anyio.WouldBlock, anyio.EndOfStream, anyio.ClosedResourceError):
                     pass
+                eof = proc.eof  # before the client's own shutdown (which may drain the pipe)
                 tg.cancel_scope.cancel()
     except Exception as ex:  # noqa
         return {"harness_error": type(ex).__name__, "entered": entered}
@@ -232,7 +234,7 @@ async def _reader_case(mod, holder, case):
         "delivered": [dump_msg(m) for m in delivered],
         "notified": [dump_msg(m) for m in notified],
         "writes": _decode_writes(proc.stdin.sends),
-        "eof": proc.eof,
+        "eof": eof,
     }
 
 
